@@ -2,5 +2,5 @@
 C03_CLAUSES = set()
 
 
-def run_traces(ctx, want_clause):
+def run_traces(ctx, want_clause, dual_only=False):
     return
